@@ -1,6 +1,7 @@
 SPECIFICATION Spec
 CONSTANTS
   MaxXfers = 2
+  MaxMid = 1
   Emit = TRUE
 INVARIANT WF
 INVARIANT Content
